@@ -2064,6 +2064,9 @@ read_dns(int fd, struct dnsfd *dns_fds, int tun_fd, struct query *q)
 #endif /* !WINDOWS32 */
 
 	if (r > 0) {
+		/* Raw mode stores this query as is, don't leave id, id2 and
+		   from2 uninitialised */
+		memset(q, 0, sizeof(struct query));
 		memcpy((struct sockaddr*)&q->from, (struct sockaddr*)&from, addrlen);
 		q->fromlen = addrlen;
 
